@@ -507,6 +507,7 @@ def run(ctx):
         generate(ctx)
         ctx.log("translated; building proof cone")
         ok = ctx.prove("C30/Props.v")
+        ok = ctx.prove("C30/PropsExtra.v") and ok
     except Exception as e:  # noqa  (a translator fails closed on unknown syntax: an obligation is broken, the judges still run)
         ctx.cov["obligations"] = max(ctx.cov["obligations"], 1)
         ctx.broken.append("translator:cannot translate the current sources (%s: %s)" % (type(e).__name__, str(e)[:300]))
